@@ -12,13 +12,28 @@ from vlint.facts import FactBase  # noqa: E402
 from vlint.inline import fn_ident  # noqa: E402
 
 ids = set()
+sigs = {}
+adts = {}
+dup = set()
 for cfg in ("full", "base", "xen"):
     fb = FactBase(cfg)
-    for f in fb.fns.values():
+    for f in fb.orig_fns.values():
         if f.rec.get("dk") == "Closure":
             continue
-        ids.add(fn_ident(f))
+        i = fn_ident(f)
+        ids.add(i)
+        sg = [list(f.rec.get("sig_in") or []), f.rec.get("sig_out") or "", bool(f.rec.get("unsafe"))]
+        if i in sigs and sigs[i] != sg:
+            dup.add(i)
+        sigs[i] = sg
+    for r in list(fb.adt_generic.values()) + [x for rs in fb.adt_by_path.values() for x in rs]:
+        vs = r.get("variants") or []
+        if len(vs) == 1 and r.get("kind", "struct") in ("struct", None) or (len(vs) == 1 and "kind" not in r):
+            adts.setdefault(r["path"], [[x["name"], x["ty"]] for x in vs[0]["fields"]])
+for i in dup:
+    sigs.pop(i, None)   # several functions share the identity (overloads across cfgs): not usable for rename detection
 out = sorted(ids)
 with open(os.path.join(HERE, "spec", "baseline_fns.json"), "w") as fh:
-    json.dump({"comment": "functions of the reference tree (self type / module-less name); see tools/gen_baseline.py", "fns": out}, fh, indent=0)
-print(len(out), "functions")
+    json.dump({"comment": "functions (identity, signature) and struct fields of the reference tree; see tools/gen_baseline.py and vlint/canon.py",
+               "fns": out, "sigs": sigs, "adts": adts}, fh, indent=0, sort_keys=True)
+print(len(out), "functions", len(sigs), "signatures", len(adts), "structs")
